@@ -513,7 +513,12 @@ func c18Enqueue(c *Ctx) {
 		}
 		n := fieldName(fa.X.Type(), fa.Field)
 		if n != "Kind" && n != "Group" {
-			return ""
+			// the whole pair compared as a struct: schema.GroupKind has exactly the fields Group and
+			// Kind, so `a != b` holds iff the group or the kind differs
+			if _, isPtr := u.Type().Underlying().(*types.Pointer); isPtr || namedTypeString(u.Type()) != "k8s.io/apimachinery/pkg/runtime/schema.GroupKind" {
+				return ""
+			}
+			n = "GroupKind"
 		}
 		// inside an extracted predicate the operands derive from its parameters, which stand for the
 		// arguments of the call in the loop body
